@@ -275,6 +275,11 @@ def r4_refused_patch_not_dropped(ctx):
             seen_here[pname] = idx + 1
             k = "%s|result-of:%s#%d" % (b.root, pname, idx)
             if reads == 0 and not ret:
+                after = cfg.reach_after(b, d[0][0])
+                okx = [e for e in cfg.exits(b) if e.kind not in ("err",) and e.block in after]
+                if not okx:
+                    r.ok(k, cfg.loc(b, d[0][0]), "CheckedPatch from `%s` is unused, but every path from here ends in an error return (the conflict is reported anyway)" % pname, work=len(after))
+                    continue
                 r.violation(k, cfg.loc(b, d[0][0]),
                             "the CheckedPatch returned by `%s` is discarded: a Conflict (stale checkpoint) is silently treated as merged" % pname,
                             work=1)
